@@ -54,6 +54,10 @@ CHECKS = {
          "The current cmd/cache/file.go is compiled with its os import redirected (build overlay) to an in-memory device that logs writes and injects faults. For bodies empty/1/100/3000 bytes (+70 KB multi-block in thorough): every byte offset x every non-zero xor mask, every truncation length, tails of 1..64 bytes, entries under a foreign key or with foreign header digests; every crash image = every subset of the write log reaching the medium (the code never syncs) x the last surviving write torn at every length; every I/O operation of the create/write/close protocol failing or coming up short, singly and in pairs, with the CLI's removal protocol mirrored. Oracle: Open fails, or reading to EOF yields exactly the bytes written; a writer that reported success left a valid entry.",
          "Device model: holes read as zero, no reordering constraints because nothing is synced; flate/sha1/header.go are the real code; one case at a time (process-global device).",
          "DESIGN.md §5 C13"),
+ "C14": (MC, "explicit-state search on the real gts binary: states = cache directory contents, transitions = invocations, every transition compared with its --no-cache run",
+         "The gts binary is built from the tree and run hermetically. Alphabet: ~170 invocations covering all 19 cached subcommands, every boolean option toggled, valued options at two values, secondary inputs at two contents, stdin among two records, a multi-record stream, garbage, a truncated record and FASTA, stdout and -o outputs. Level 1: every invocation on the empty cache; level 2: every ordered pair (includes warm repeats and failed-then-repeated); levels 3..4: breadth-first inside command families, de-duplicated on a hash of the directory state. On every transition stdout, the -o file and the exit status must equal those of the same invocation with --no-cache. A vacuity guard counts same-command pairs whose uncached outputs differ.",
+         "The alphabet is a menu, not the full option product; stderr is not compared.",
+         "DESIGN.md §5 C14"),
  "C16": (MC, "exhaustive enumeration of every sequence length 0..N and every single-byte mutation of short blocks through NewOrigin/Origin/scanner (LF and CRLF) and, by overlay export, the two internal ORIGIN reader paths",
          "Every length 0..1300 (quick) / 0..12000 (thorough) with residues cycling through all printable bytes: the block equals an independently written layout, Len() before and after decoding equals n, decoding restores the residues, re-formatting is stable, the closed-form size arithmetic agrees with the block, and a record carrying the block is read with identical residues through the fast (LF) and slow (CRLF) reader paths. For every length <=70 (quick) / <=130 (thorough) every offset of the block x 9 replacement bytes: both line-end variants agree, and validateOrigin and slowGenBankOriginParser (exported into the checker by a build overlay, nothing committed to /repo) agree in verdict and output.",
          "If the unexported names disappear the overlay build falls back and the internal sub-check is reported as skipped in the evidence; seqio parsing is serialised (pars combinators are not goroutine-safe).",
